@@ -56,6 +56,16 @@ MUTANTS = [
     ("c07-fork-checkpoint-bound-off-by-one", {"fire": ["C07"]}, [
         (WC + "provenance_store.rs", "                .filter(|c| c.checkpoint.worldline_tick <= checkpoint_max_tick)\n",
          "                .filter(|c| c.checkpoint.worldline_tick.as_u64() <= (end_idx as u64).saturating_add(1))\n")]),
+    # ---------------- rounds 4/5
+    ("c19-axis-angle-guard-on-the-square-only", {"fire": ["C19"]}, [   # re-introduces F11
+        ("crates/warp-math/src/quat.rs", "        if len <= EPSILON {\n            return Self::identity();\n        }\n        let norm_axis", "        let norm_axis")]),
+    ("c08-parents-sorted-by-projection", {"fire": ["C08"]}, [
+        (WC + "head_inbox.rs", "causal_parents.sort_unstable();", "causal_parents.sort_unstable_by_key(|p| p.receipt_ref());")]),
+    ("c04-jump-early-return", {"fire": ["C04"]}, [
+        (WC + "engine_impl.rs", "        // 1. Restore state to the preserved initial state (U0).\n",
+         "        if tick_index + 1 == ledger_len && self.tick_history[tick_index].0.state_root == compute_state_root(&self.state, &self.current_root) {\n            return Ok(());\n        }\n        // 1. Restore state to the preserved initial state (U0).\n")]),
+    ("silent-jump-reset-via-clone-from", {"silent": ["C04"]}, [
+        (WC + "engine_impl.rs", "        self.state = self.initial_state.clone();\n\n        // 2. Re-apply", "        let fresh = self.initial_state.clone();\n        self.state = fresh;\n\n        // 2. Re-apply")]),
 ]
 
 
